@@ -2,6 +2,8 @@
 from .. import core, hist
 from ..gen import KEY_POOL, PREFIX, hx, rng_for
 
+EXTRA_PROP_MODULES = [("KB.Props.OrderC09", "KB.OrderC09")]
+
 ENGINES = ["memkv", "badger", "tikv"]
 
 
